@@ -192,8 +192,9 @@ pub fn run(tier: Tier) -> i32 {
   quiet_panics();
   let mut run = Run::new("C01", tier, "model_checking");
   let cfg = core_cfg();
-  let w = std::env::var("VERIF_W").ok().and_then(|s| s.parse().ok()).unwrap_or(4usize); // both tiers: weight 5 is explored with VERIF_W=5 but is not yet triaged (DESIGN.md C01)
-  let en = Enum::new(&cfg, w);
+  // quick: weight 4; thorough: weight 4 over the larger document universe, then weight 5 over the quick universe
+  let w = std::env::var("VERIF_W").ok().and_then(|s| s.parse().ok()).unwrap_or(4usize);
+  let en = Enum::new(&cfg, w.max(tier.pick(4, 5)));
   let docs = json_universe(tier);
   let sdocs: Vec<serde_json::Value> = docs.iter().map(rv_to_serde).collect();
   let lib = helper_rules();
@@ -201,6 +202,14 @@ pub fn run(tier: Tier) -> i32 {
     let tys = en.types(k);
     sweep_json(&mut run, tys, &lib, &docs, &sdocs, &format!("weight_{k}"));
     run.transitions += tys.len() as u64 * docs.len() as u64;
+  }
+  if tier == Tier::Thorough && w < 5 {
+    let qdocs = json_universe(Tier::Quick);
+    let qsdocs: Vec<serde_json::Value> = qdocs.iter().map(rv_to_serde).collect();
+    let tys = en.types(5);
+    sweep_json(&mut run, tys, &lib, &qdocs, &qsdocs, "weight_5");
+    run.transitions += tys.len() as u64 * qdocs.len() as u64;
+    run.set("weight_5_documents", json!(qdocs.len()));
   }
   // map family: every map of 1..3 members (and two alternatives) over a member alphabet that
   // weight-bounded enumeration reaches only at weight 6-9 (two or three keyed members)
